@@ -48,6 +48,8 @@ pub struct IdMap {
     i2e: Vec<I2eRecord>,
     i2e_start: Option<PageId>,
     i2e_len: u64,
+    /// Largest external id ever assigned (deleted nodes keep theirs); 0 if none.
+    max_external_id: ExternalId,
 }
 
 impl IdMap {
@@ -58,11 +60,13 @@ impl IdMap {
         let mut e2i = HashMap::with_capacity(i2e_len as usize);
         let mut i2l = Vec::with_capacity(i2e_len as usize);
         let mut i2e = Vec::with_capacity(i2e_len as usize);
+        let mut max_external_id = 0;
 
         if let Some(start) = i2e_start {
             for internal_id_u64 in 0..i2e_len {
                 let record = read_i2e_record(pager, start, internal_id_u64)?;
                 i2e.push(record);
+                max_external_id = max_external_id.max(record.external_id);
                 if record.external_id != 0 {
                     e2i.insert(record.external_id, internal_id_u64 as u32);
                 }
@@ -77,6 +81,7 @@ impl IdMap {
             i2e,
             i2e_start,
             i2e_len,
+            max_external_id,
         })
     }
 
@@ -93,6 +98,12 @@ impl IdMap {
     #[inline]
     pub fn next_internal_id(&self) -> InternalNodeId {
         u32::try_from(self.i2e_len).unwrap_or(u32::MAX)
+    }
+
+    /// Largest external id ever assigned, including deleted nodes (0 if none).
+    #[inline]
+    pub fn max_external_id(&self) -> ExternalId {
+        self.max_external_id
     }
 
     #[inline]
@@ -197,6 +208,7 @@ impl IdMap {
         pager.set_next_internal_id(self.next_internal_id())?;
 
         self.e2i.insert(external_id, internal_id);
+        self.max_external_id = self.max_external_id.max(external_id);
         self.i2l.push(labels.clone());
         self.i2e.push(I2eRecord {
             external_id,
